@@ -13,25 +13,31 @@ CLAUSES = {
     31: "csum-completion-length", 32: "csum-completion-bytes-changed", 33: "csum-completion-checksum-invalid",
     34: "udp-checksum-zero-not-mangled", 35: "passthrough-changed",
     40: "panic-on-well-formed-input", 41: "wrote-outside-reported-bytes",
+    50: "checksum-not-rfc1071", 51: "checksum-not-rfc1071", 52: "pseudo-header-checksum-not-rfc1071",
 }
 STAT_NAMES = ["ok", "err_short_buffer", "err_overflows_bufs_element", "err_unsupported_gso_type",
               "err_version_vs_gso_type", "err_invalid_ip_version", "err_packet_too_short", "err_tcp_header_len",
               "err_len_lt_hdrlen", "err_hdrlen_lt_csumstart", "err_checksum_offset_end", "err_too_many_segments",
               "panic", "gso_none_plain", "gso_none_needs_csum", "super_tcp4", "super_tcp6", "super_udp4",
-              "super_udp6", "spec_evaluated_super", "spec_evaluated_csum_completion", "segments_checked_by_spec"]
+              "super_udp6", "spec_evaluated_super", "spec_evaluated_csum_completion", "segments_checked_by_spec",
+              "direct_checksum_calls", "direct_checksum_calls_with_carry_in_tail_step", "direct_pseudo_header_calls"]
 
 
 class Prop:
     pid = "C17"
     vo_check = ["theories/Offload/GsoCheck.vo"]
     vo_props = ["theories/Props/C17.vo"]
-    k_names = ["segments(tun.handleVirtioRead == Offload.Gso.handle_virtio_read, byte for byte, errors and panics included)",
+    k_names = ["checksum(tun.checksumNoFold/checksum/pseudoHeaderChecksumNoFold == Offload.Checksum mirror and == RFC 1071 spec, "
+               "64-bit initial values at the edge of 2^64 x every tail length)",
+               "segments(tun.handleVirtioRead == Offload.Gso.handle_virtio_read, byte for byte, errors and panics included)",
                "spec(Offload.GsoSpec clauses evaluated in Coq on the segments tun.handleVirtioRead produced)"]
     rule = ("virtio-net reads from one PRNG: TCPv4/TCPv6/UDP super-packets (IPv4 options 0..40, TCP options 0..40, "
             "gso_size {1,2,3,8,100,536,1200,1448,1460,8948,65495,65535,random}, payload = exact multiples / +-1 / short "
             "tails / up to the 64 KiB read buffer, seq around 2^32, all flag bytes, IPv4 IDs around 2^16, buffer counts "
             "1..128 incl. nseg-1/nseg/nseg+1, offsets 0..64), GSO_NONE with and without NEEDS_CSUM, 12 kinds of malformed "
-            "header; non-trivial = at least two segments produced, or an error/too-many-segments path, or a checksum "
+            "header; super-packets crafted so that the 64-bit checksum accumulator wraps in the 4/2/1-byte tail steps; "
+            "direct checksum calls: initial values {0,1,2^16-1,2^32-1,2^32,2^63,2^64-1,2^64-2,2^64-2^16,2^64-256,... and "
+            "their byte swaps, random near 2^64} x lengths 0..40 and around 64/128/256/1500/9001 x {0xff, 0, random}; non-trivial = at least two segments produced, or an error/too-many-segments path, or a checksum "
             "completion; distinct by content hash of the input")
     assumptions = ["little-endian host (binary.NativeEndian in tun/checksum.go and virtioNetHdr.decode)",
                    "well-formed input (wf_super): what the kernel delivers - |packet| <= 65535, hdrLen <= |packet|, gso_size >= 1, "
@@ -60,6 +66,8 @@ class Prop:
         shards = 16 if tier == "quick" else 64
         args = ["-seed", str(seed), "-n", str(n), "-shards", str(shards), "-out", self.dir,
                 "-corpus", os.path.join(vlib.ROOT, "corpus", "C17")]
+        if tier != "quick":
+            args.append("-thorough")
         if os.environ.get("VERIF_C17_EXTHDR"):
             args.append("-exthdr")
         self._run_go(args)
@@ -94,7 +102,8 @@ class Prop:
             if f.startswith("cases_C17_"):
                 os.unlink(os.path.join(d, f))
         inp = os.path.join(d, "in.json")
-        json.dump([{k: c[k] for k in ("raw", "nbufs", "offset", "room")} for c in cases], open(inp, "w"))
+        keys = ("type", "init", "data", "proto", "src", "dst", "tlen", "raw", "nbufs", "offset", "room")
+        json.dump([{k: c[k] for k in keys if k in c} for c in cases], open(inp, "w"))
         self._run_go(["-replay", inp, "-out", d, "-shards", str(min(16, max(1, len(cases))))])
         meta, files = self._load(d)
         outs = vlib.run_case_files(files)
@@ -102,6 +111,14 @@ class Prop:
         return self._fails(meta["shards"], files, outs)
 
     def shrink_candidates(self, case):
+        if case.get("type") == "ck":
+            d = base64.b64decode(case.get("data") or "")
+            for keep in (len(d) // 2, len(d) - 8, len(d) - 1):
+                if 0 <= keep < len(d):
+                    yield dict(case, data=base64.b64encode(d[len(d) - keep:]).decode())
+            return
+        if case.get("type") == "ph":
+            return
         raw = base64.b64decode(case["raw"])
         base = {"nbufs": case["nbufs"], "offset": case["offset"], "room": case["room"]}
         seen = set()
@@ -140,10 +157,14 @@ class Prop:
         return describe(f["kind"], f["pos"], short=True)
 
     def nontrivial(self, c):
+        if c.get("type") in ("ck", "ph"):
+            return True
         return bool(c.get("panic")) or c.get("err", 0) != 0 or len(c.get("segs") or []) >= 2 or \
             (c.get("info") or {}).get("kind") == "none-csum"
 
     def sample(self, c):
+        if c.get("type") in ("ck", "ph"):
+            return {k: c.get(k) for k in ("gen", "type", "init", "data", "proto", "src", "dst", "tlen", "obs_nofold", "obs_ck")}
         return {"gen": c.get("gen"), "info": c.get("info"), "raw_len": len(base64.b64decode(c["raw"])),
                 "virtio_hdr": base64.b64decode(c["raw"])[:10].hex(), "nbufs": c["nbufs"], "offset": c["offset"],
                 "observed": {"n": c.get("n"), "err": c.get("err_msg") or None, "panic": c.get("panic_msg") or None,
@@ -157,7 +178,8 @@ def describe(kind, pos, short=False):
         return name if short else "specification clause %r fails on segment %d" % (name, seg)
     if pos >= 2 ** 40:
         x = pos - 2 ** 40
-        name = {1: "model-panics-impl-does-not", 2: "impl-panics-model-does-not", 3: "count-differs", 99: "abi-constants-differ"}.get(
+        name = {1: "model-panics-impl-does-not", 2: "impl-panics-model-does-not", 3: "count-differs", 99: "abi-constants-differ",
+                200: "checksumNoFold-differs", 201: "checksum-differs", 202: "pseudoHeaderChecksumNoFold-differs"}.get(
             x, "error-class-differs(model=%d)" % (x - 100))
         return "model:" + name if short else "implementation differs from the model: " + name
     seg, off = divmod(pos, 65536)
